@@ -23,7 +23,7 @@ RULE = (
     "with and without tb, highlighting and filtering on and off: returns a str (None for None), never raises. "
     "(d) str, repr, debug.str, debug.repr and dump() of every asynq object (futures of every class, tasks, batches, "
     "items, the scheduler, scoped values, override contexts, async generators) in every lifecycle state, probed inside "
-    "task steps, inside flushes and after completion of random Tasklang programs: never raise and never change "
+    "task steps, inside flushes and after completion of random Tasklang programs, plus fixed objects holding awkward payloads (tuples of every length, format-like strings, bytes, containers, nan): never raise and never change "
     "is_computed() of anything. distinct = case hash per part; non-trivial = (a) d >= 2, (b) >= 1 run, (c)/(d) all."
 )
 ASSUMPTIONS = ["pygments (used for highlighting) is trusted"]
@@ -497,6 +497,17 @@ def diag(obj, kind, state, viol, c, stats):
             viol.append(("dump-raised", {"object": kind, "state": state, "exc": exc_desc(e)}))
 
 
+def faithful(sv, value, viol):
+    """str()/repr() of a scoped value show the held value (the format the library's own test pins)."""
+    try:
+        if str(sv) != "AsyncScopedValue(" + str(value) + ")":
+            viol.append(("str-misreports-held-value", {"object": "AsyncScopedValue", "held": repr(value), "str": str(sv)[:80]}))
+        if repr(sv) != "AsyncScopedValue(" + repr(value) + ")":
+            viol.append(("repr-misreports-held-value", {"object": "AsyncScopedValue", "held": repr(value), "repr": repr(sv)[:80]}))
+    except BaseException:
+        pass  # raising is reported by diag()
+
+
 def future_state(f):
     try:
         if not f.is_computed():
@@ -679,6 +690,55 @@ def run_objects_fixed(unit, res, c, progress):
     def t1():
         v = yield harness.HItem(rt, 0, "t", ("t", 0))
         return v
+
+    # ---- objects HOLDING awkward payloads: tuples of every length, format-like strings, bytes, containers
+    from asynq.batching import DebugBatchItem
+
+    payloads = [(), (1,), (7, "en_US"), ((), ()), "%s", "%d %s %%", "{} {0}", b"\xff", [], [()], {}, {"k": (1, 2)}, None, 0, float("nan"), "\u2603", frozenset(), 10 ** 30]
+
+    @A()
+    def with_args(x, y=None):
+        v = yield harness.HItem(rt, 0, "pa", ("pa", next(pctr)))
+        return x
+
+    pctr = itertools.count()
+    for pi, pv in enumerate(payloads):
+        sv2 = AsyncScopedValue(pv)
+        for state in ("default", "set", "overridden", "after-override"):
+            if state == "set":
+                sv2.set(pv)
+            if state == "overridden":
+                with sv2.override(pv):
+                    diag(sv2, "AsyncScopedValue", "payload/" + state, viol, c, stats)
+                    faithful(sv2, pv, viol)
+                continue
+            diag(sv2, "AsyncScopedValue", "payload/" + state, viol, c, stats)
+            faithful(sv2, pv, viol)
+        ovc = sv2.override(pv)
+        diag(ovc, "_AsyncScopedValueOverrideContext", "payload", viol, c, stats)
+        diag(async_override(Holder, "x", pv), "_AsyncPropertyOverrideContext", "payload", viol, c, stats)
+        diag(ConstFuture(pv), "ConstFuture", "payload", viol, c, stats)
+        fpl = Future(lambda pv=pv: pv)
+        diag(fpl, "Future", "payload-uncomputed", viol, c, stats)
+        fpl.value()
+        diag(fpl, "Future", "payload-value", viol, c, stats)
+        try:
+            diag(ErrorFuture(ValueError(pv)), "ErrorFuture", "payload", viol, c, stats)
+        except BaseException:
+            pass
+        tk = with_args.asynq(pv, y=pv)
+        diag(tk, "AsyncTask", "payload-args-not-started", viol, c, stats)
+        tk.value()
+        diag(tk, "AsyncTask", "payload-args-value", viol, c, stats)
+        try:
+            di = DebugBatchItem("c18p", pv)
+            diag(di, "DebugBatchItem", "payload-pending", viol, c, stats)
+            diag(di.batch, "DebugBatch", "payload-pending", viol, c, stats)
+            di.value()
+            diag(di, "DebugBatchItem", "payload-value", viol, c, stats)
+        except BaseException as e:
+            viol.append(("debug-batch-item-with-payload-raised", {"object": "DebugBatchItem", "exc": exc_desc(e), "payload": repr(pv)}))
+    c["payload_objects_printed"] = len(payloads)
 
     task = t1.asynq()
     diag(task, "AsyncTask", "not-started", viol, c, stats)
